@@ -26,6 +26,11 @@ example : (enter exCtx).log = [] ∧ (push Act.queue exCtx (.userPost 9)).log = 
     ∧ (leave Act.queue exBody exUpd 3 (enter exCtx)).log = []
     ∧ (leave Act.queue exBody exUpd 3 exCtx).log ≠ [] := by decide
 
+/-- the same with a propagation that pushes a `pre_eot` closure: nothing runs at an inner close -/
+example : (leave Act.queue exBody exUpdPre 3 (enter exCtx)).log = []
+    ∧ (leave Act.queue exBody exUpdPre 3 (enter exCtx)).preEot = exCtx.preEot
+    ∧ (leave Act.queue exBody exUpdPre 3 exCtx).log ≠ [] := by decide
+
 /-- C01 — for every sequence of enters, pushes and leaves that keeps the transaction open (no leave
     brings the depth to 0: `staysOpen`), the log is unchanged, whatever is on the queues; the word
     only accumulates its pushes on the queues.  No closure runs before the outermost close. -/
